@@ -69,6 +69,7 @@ def run(F, rep, tier):
     k15_k16(F, rep, contracts)
     guard(F, rep)
     union_find(F, rep)
+    minted_type_ids(F, rep, contracts)
     census(F, rep, contracts)
     cursor_total(F, rep)
     single_visit(F, rep)
@@ -1587,3 +1588,143 @@ def _exclusive(pa, pb):
     if anc.get("k") == "If":
         return (ca is anc.get("t") and cb is anc.get("e")) or (ca is anc.get("e") and cb is anc.get("t"))
     return False
+
+
+# --------------------------------------------------------------------------- indices into the type table are minted
+
+SHRINKING = {"truncate", "pop", "remove", "swap_remove", "clear", "drain", "retain", "split_off", "set_len", "dedup", "resize"}
+
+
+def minted_type_ids(F, rep, contracts, rule="MINTED"):
+    """`self.types[i]` cannot be out of range: (M1) a TyID is only made from the length of the table immediately before a
+    push (push_type), or from the number inside another TyID / a position below `types.len()`; (M2) the table never
+    shrinks; (M3) every index into the table is such a number.  By induction every TyID ever made is a valid position."""
+    TCs = "sylt_compiler::typechecker::TypeChecker"
+    n_ctor = n_idx = 0
+
+    def is_types_field(e):
+        e = peel(e)
+        return isinstance(e, dict) and e.get("k") == "Field" and e["name"] == "types" and TCs in (e.get("base_ty") or "")
+
+    shrink = []
+    for fn in F.own_fns(["sylt_compiler", "sylt_common", "sylt", "sylt_parser"]):
+        body = fn_body(fn)
+        # numbers known to be positions of the table
+        R = set()
+        for x in nodes(body):
+            for key in ("pat",):
+                pass
+        def tyid_pattern_bindings(p):
+            out = []
+            if not isinstance(p, dict):
+                return out
+            if p.get("k") == "TupleStruct" and (norm_path(p.get("path")) or "").endswith("TyID"):
+                out += [b["hid"] for b in pat_bindings(p)]
+            for key in ("pats", "before", "after"):
+                for q in p.get(key) or []:
+                    out += tyid_pattern_bindings(q)
+            for key in ("pat", "sub"):
+                if isinstance(p.get(key), dict):
+                    out += tyid_pattern_bindings(p[key])
+            for f in p.get("fields") or []:
+                if isinstance(f, dict):
+                    out += tyid_pattern_bindings(f.get("pat"))
+            return out
+        for prm in fn["params"]:
+            R.update(tyid_pattern_bindings(prm["pat"]))
+        assigns = {}
+        for x in nodes(body):
+            k = x.get("k")
+            if k in ("Let", "LetCond"):
+                R.update(tyid_pattern_bindings(x["pat"]))
+                if k == "Let" and x.get("init") is not None:
+                    bs = pat_bindings(x["pat"])
+                    if len(bs) == 1 and peel(x["pat"]).get("k") == "Binding":
+                        assigns.setdefault(bs[0]["hid"], []).append(x["init"])
+            elif k == "Match":
+                for a in x["arms"]:
+                    R.update(tyid_pattern_bindings(a["pat"]))
+            elif k == "ForLoop":
+                it = peel(x["iter"])
+                if it.get("k") == "Struct" and "Range" in (it.get("path") or "") or it.get("k") == "Range":
+                    hi = None
+                    for f in it.get("fields", []):
+                        if f["name"] == "end":
+                            hi = peel(f["e"])
+                    hi = hi or peel(it.get("hi") or {})
+                    if isinstance(hi, dict) and hi.get("k") == "MethodCall" and hi["m"] == "len" and is_types_field(hi["recv"]):
+                        R.update(b["hid"] for b in pat_bindings(x["pat"]))
+            elif k == "Assign":
+                l = peel(x["l"])
+                if l.get("k") == "Path" and l.get("res") == "Local":
+                    assigns.setdefault(l["hid"], []).append(x["r"])
+            elif k == "MethodCall" and x["m"] in SHRINKING and is_types_field(x["recv"]):
+                shrink.append((fn, x))
+        def value_tails(e):
+            e = peel(e)
+            if not isinstance(e, dict):
+                return []
+            if e.get("k") == "If":
+                return value_tails(e["t"]) + (value_tails(e["e"]) if e.get("e") is not None else [None])
+            if e.get("k") == "Match":
+                return [t for a_ in e["arms"] for t in value_tails(a_["body"])]
+            if e.get("k") == "Block":
+                return value_tails(e["e"]) if e.get("e") is not None else [None]
+            return [e]
+        tuple_lets = []
+        for x in nodes(body, "Let"):
+            p_ = peel(x["pat"])
+            if p_.get("k") == "Tuple" and x.get("init") is not None and all(peel(q).get("k") == "Binding" for q in p_["pats"]):
+                tuple_lets.append(([peel(q)["hid"] for q in p_["pats"]], x["init"]))
+        changed = True
+        while changed:
+            changed = False
+            for h, es in assigns.items():
+                if h in R:
+                    continue
+                if all(peel(e).get("k") == "Path" and peel(e).get("hid") in R for e in es):
+                    R.add(h)
+                    changed = True
+            for hs, init in tuple_lets:
+                if all(h in R for h in hs):
+                    continue
+                ts = value_tails(init)
+                if ts and all(isinstance(t, dict) and t.get("k") == "Tup" and len(t["es"]) == len(hs) and
+                              all(peel(y).get("k") == "Path" and peel(y).get("hid") in R for y in t["es"]) for t in ts):
+                    R.update(hs)
+                    changed = True
+        order = [id(x_) for x_ in nodes(body)]
+        push_pos = [order.index(id(c)) for c in nodes(body, "MethodCall") if c["m"] == "push" and is_types_field(c["recv"])]
+        k1 = k2 = 0
+        for x, parents in walk(body):
+            if x.get("k") == "Call" and (callee(x) or "").endswith("sylt_common::TyID") and x["args"] and not x.get("from_derive"):
+                a = peel(x["args"][0])
+                n_ctor += 1
+                k1 += 1
+                # the length read *before* the one push that fills that position
+                mint = a.get("k") == "MethodCall" and a["m"] == "len" and is_types_field(a["recv"]) and len(push_pos) == 1 and \
+                    order.index(id(a)) < push_pos[0]
+                ok = mint or (a.get("k") == "Path" and a.get("hid") in R)
+                rep.ob(rule, "%s|TyID(..)#%d" % (last(fn["_path"], 2), k1), ok,
+                       ("TyID(%s): %s" % (pp(a), "the position the next push fills" if mint else "the number of an existing TyID / a position below types.len()"))
+                       if ok else
+                       "%s makes a TyID from `%s`, which is neither the length of the table right before a push nor a number taken out of "
+                       "an existing TyID: `self.types[..]` with it can be out of range (index out of bounds panic)" % (last(fn["_path"], 2), pp(a)),
+                       line_of(x))
+            if x.get("k") == "Index" and is_types_field(x["e"]):
+                i = peel(x["i"])
+                n_idx += 1
+                k2 += 1
+                ok = i.get("k") == "Path" and i.get("hid") in R
+                if ok:
+                    contracts[id(x)] = "MINTED TyID"
+                rep.ob(rule, "%s|types[..]#%d" % (last(fn["_path"], 2), k2), ok,
+                       "types[%s]: the number of a TyID" % pp(i) if ok else
+                       "%s indexes the type table with `%s`, which is not known to be the number of a TyID" % (last(fn["_path"], 2), pp(i)),
+                       line_of(x))
+    rep.ob(rule, "types|never-shrinks", not shrink,
+           "the type table only grows (no truncate/pop/remove/clear/.. on TypeChecker.types)" if not shrink else
+           "the type table is shrunk in %s: TyIDs made earlier may point past its end" % [last(f["_path"], 2) for f, _ in shrink],
+           line_of(shrink[0][1]) if shrink else None)
+    rep.floor(rule, "TyID constructions", n_ctor, 4)
+    rep.floor(rule, "indices into the type table", n_idx, 10)
